@@ -34,6 +34,7 @@ type srvOpt struct {
 	ResetOnWrite bool // after the server closed, the client's next write fails (RST) instead of vanishing
 	BadLen      bool // may send a frame whose header announces more bytes than ever arrive
 	Delay       time.Duration // the server thinks this long before every action (slow server)
+	DropFirst   int           // the first n queries arriving on every connection are lost (UDP loss): only a resend gets an answer
 }
 
 type tOpt struct {
@@ -54,6 +55,7 @@ type tOpt struct {
 	RewindQid bool // tdc kinds: every call first rewinds the wire-ID counter to StartQid (a reachable state after 65536 allocations): IDs of queries still in flight must be skipped
 	Withdraw  bool // tdc kinds: a caller may reserve and withdraw instead of exchanging
 	IdleTimeout time.Duration
+	KeepReleased bool // the buffer pool does not overwrite released buffers in this scenario (see fk.PoisonOnRelease)
 }
 
 type wireQ struct {
@@ -84,6 +86,7 @@ type tConn struct {
 	wstream    []byte // client->server bytes not yet forming a complete frame
 	actLog     string // server actions taken on this connection, in order
 	openedFor  int // call on whose behalf the connection was dialed (-1 unknown)
+	dropped    int // queries lost on arrival (srvOpt.DropFirst)
 }
 
 type xmit struct {
@@ -234,6 +237,11 @@ func (s *tsys) serve(cn *tConn) {
 			for _, m := range msgs {
 				if fk.QName(m) == "" {
 					cn.garbled++ // not a DNS query at all (mis-framed stream): a real server would drop it
+					continue
+				}
+				if cn.dropped < so.DropFirst {
+					cn.dropped++
+					cn.actLog += "L"
 					continue
 				}
 				w := &wireQ{wire: m, call: s.callOf(m), at: vs.Elapsed()}
@@ -430,6 +438,7 @@ func (s *tsys) dialDns(ctx context.Context) (DnsConn, error) {
 // run is the scenario body.
 func (s *tsys) run() {
 	o := s.opt
+	fk.PoisonOnRelease = !o.KeepReleased
 	if o.Seq == 0 {
 		o.Seq = 1
 		s.opt.Seq = 1
